@@ -191,8 +191,13 @@ def run_tlc(
     t0 = time.time()
     # TLC re-evaluates a failing expression with call-stack tracking, which can take forever on nested
     # matrix expressions; an arithmetic overflow is therefore detected on the fly and TLC is stopped.
-    outf = tempfile.TemporaryFile(mode="w+", dir=workdir)
-    proc = subprocess.Popen(cmd, cwd=workdir, env=env, stdout=outf, stderr=subprocess.STDOUT, text=True)
+    # the child appends through its own descriptor; the parent reads through a separate one (a shared
+    # descriptor would share the file offset and the parent's seek() would corrupt the child's output)
+    out_path = os.path.join(workdir, f"out_{module}.txt")
+    outw = open(out_path, "a")
+    proc = subprocess.Popen(cmd, cwd=workdir, env=env, stdout=outw, stderr=subprocess.STDOUT, text=True)
+    outw.close()
+    outf = open(out_path, "r")
     overflow_seen = None
     killed_for_overflow = False
     pos = 0
